@@ -19,7 +19,7 @@ for id in $ids; do
     nk=$(echo "$out" | grep -c 'key=')
     case "$rc" in
       exit=1) echo "$id $d caught ($nk keys shown)";;
-      exit=0) echo "$id $d MISSED";;
+      exit=0) if [ -e "$(dirname "$d")/NOTE.md" ]; then echo "$id $d silent-by-design (see NOTE.md next to it)"; else echo "$id $d MISSED"; fi;;
       *) echo "$id $d $rc (machinery)";;
     esac
   done
